@@ -97,6 +97,7 @@ class Sched:
             t.blocked_on = None
             t.sem.release()
             self.ctl.acquire()
+        self.snapshot = tuple((t.name, t.npoints, t.done, type(t.exc).__name__ if t.exc else None, tuple(t.observed)) for t in self.tasks)
         self._kill()
         return main
 
@@ -200,7 +201,7 @@ class Out:
 
 def state_key(s, out):
     return (
-        tuple((t.name, t.npoints, t.done, type(t.exc).__name__ if t.exc else None, tuple(t.observed)) for t in s.tasks),
+        s.snapshot,  # taken before the leftover tasks are aborted
         tuple(tuple(q.items) for q in s.queues),
         tuple(out.chunks),
     )
